@@ -1,6 +1,6 @@
 """C19 — render status reported to the wiki is faithful to the job's real state.
 Proof: coq/C19 (status mapping over all snapshots, job-id injectivity, header-safe Content-Disposition,
-life cycle of a job).  Tie: (a) exhaustive product of snapshot field shapes through the extracted model vs
+life cycle of a job in C19's own abstraction AND over every history of the C16 queue model: QueueInv.v, ProofsCompose.v).  Tie: (a) exhaustive product of snapshot field shapes through the extracted model vs
 the real Application.do_render_status, (b) random job histories on a real qs.jobs.workq behind QPlugin,
 (c) exhaustive pass over all code points for the Unicode facts the theorems assume.
 Search: the property's own oracle on the real responses given the live job objects; it runs even when the translator
@@ -373,7 +373,7 @@ def generate(src):
 
 
 def build():
-    return core.ocaml_build("c19", "C19/Extract.v", "driver.ml")
+    return core.ocaml_build("c19", "C19/Extract.v", "driver.ml", dirs=["C16", "C19"])
 
 
 def check(run):
@@ -397,7 +397,10 @@ def check(run):
                    "vt/gen/c19_writers.py (name2writer table, separator class, progress text regenerated from nserve.py)",
                    "unicodedata.normalize('NFKD') as an oracle (hypothesis nfkd_no_new_controls, checked over all code points at run time); "
                    "str.isspace table and utf-8/percent-encoding restated in the model and compared on the real code",
-                   "the in-process proxy replacing rpcclient.ServerProxy (JSON round trip of arguments/results)"]
+                   "the in-process proxy replacing rpcclient.ServerProxy (JSON round trip of arguments/results)",
+                   "C19_reachable / C19_status_after_*: coq/C16/Model.v, the queue model of C16/C17/C18 (tied to the real qs code by THEIR "
+                   "differential runs, not by this check), and the decoding of its value codes into JSON values (Section variables; only "
+                   "`exactly error code 0 is falsy` is assumed)"]
     run.assumptions = ["job snapshots reach do_render_status as JSON values (None/bool/int/str/list/dict; floats not modelled)",
                        "suggested filenames contain no control characters and no lone surrogates (the property's quantifier)",
                        "bottle/WSGI dispatch, collid2qserve routing and the TCP RPC layer are not covered"]
